@@ -129,37 +129,47 @@ example :
 
 /-- **Table entry and liveness of every other connection are untouched** by an event of `A`
 (first packet — accepted or refused —, any packet, the end of the connection), in every
-broker state. -/
-theorem C05_other_connections_untouched (b : B) (A B' : Nat) (e : Ev) (he : onConn A e = true) (hne : B' ≠ A) :
+broker state — with the one exception MQTT demands: an acceptable CONNECT that carries the
+client identifier of a live connection disconnects that connection (MQTT-3.1.4-2;
+`noTakeOver b e`: the event is not such a CONNECT, `takenOver b f a = []`). -/
+theorem C05_other_connections_untouched (b : B) (A B' : Nat) (e : Ev) (he : onConn A e = true) (hne : B' ≠ A)
+    (hto : noTakeOver b e) :
     (step b e).1.getConn B' = b.getConn B' ∧ (step b e).1.alive B' = b.alive B' :=
-  ⟨step_getConn_other b A B' e he hne, step_alive_other b A B' e he hne⟩
+  ⟨step_getConn_other b A B' e he hne hto, step_alive_other b A B' e he hne hto⟩
+
+/-- ... and a CONNECT that does take over ends exactly the live connections that carry its
+client identifier: every other connection keeps its table entry (`takenOver`). -/
+theorem C05_take_over_ends_only_same_client (b : B) (A B' : Nat) (f : First) (a : Bool) (hne : B' ≠ A)
+    (hB : B' ∉ takenOver b f a) :
+    (step b (.first A f a)).1.getConn B' = b.getConn B' :=
+  step_conn_kept b (.first A f a) B' (fun h => h.elim (fun e => hne e.symm) hB)
 
 /-- **Session objects of others are untouched**: every session object `r` that is not the one
 serving `A` and not the one an accepted CONNECT of `A` resumes (same client identifier) is
 exactly what it was — subscriptions, will, open QoS 2 exchanges. -/
 theorem C05_other_sessions_untouched (b : B) (hi : Inv b) (A : Nat) (e : Ev) (he : onConn A e = true)
-    (r : Nat) (s : Sess) (hs : b.getSess r = some s) (hsh : ¬ sharesSession b A r e) :
+    (r : Nat) (s : Sess) (hs : b.getSess r = some s) (hsh : ¬ sharesSession b A r e) (hto : noTakeOver b e) :
     (step b e).1.getSess r = some s :=
-  step_getSess_other hi A e he r s hs hsh
+  step_getSess_other hi A e he r s hs hsh hto
 
 /-- **What an event of `A` emits**: packets to `A` itself, the close of `A`, and fan-out items
 (`fwdOk`: a PUBLISH with RETAIN = 0 written to a connection, or an in-process callback).  In
 particular no other connection is closed, and nothing but such a PUBLISH is written to one. -/
-theorem C05_outputs (b : B) (A : Nat) (e : Ev) (he : onConn A e = true) :
+theorem C05_outputs (b : B) (A : Nat) (e : Ev) (he : onConn A e = true) (hto : noTakeOver b e) :
     (∀ o ∈ (step b e).2, isoOut A o = true) ∧
     ∀ B', B' ≠ A → Out.closed B' ∉ (step b e).2 ∧
       ∀ p, Out.send B' p ∈ (step b e).2 → ∃ w, p = .publish w ∧ w.retain = false := by
-  refine ⟨step_iso b A e he, fun B' hne => ⟨fun hm => ?_, fun p hm => ?_⟩⟩
-  · exact (isoOut_other hne (step_iso b A e he _ hm)).1 rfl
-  · exact (isoOut_other hne (step_iso b A e he _ hm)).2 p rfl
+  refine ⟨step_iso b A e he hto, fun B' hne => ⟨fun hm => ?_, fun p hm => ?_⟩⟩
+  · exact (isoOut_other hne (step_iso b A e he hto _ hm)).1 rfl
+  · exact (isoOut_other hne (step_iso b A e he hto _ hm)).2 p rfl
 
 /-- **Only messages reach others.**  An event of `A` that hands no application message to the
 fan-out — a refused or accepted first packet, SUBSCRIBE, UNSUBSCRIBE, every acknowledgement,
 PINGREQ, DISCONNECT, a QoS 2 PUBLISH (held until its PUBREL), packets a client has no business
 sending, anything on a connection that is not live — emits to `A` alone. -/
-theorem C05_quiet_events_reach_nobody (b : B) (A : Nat) (e : Ev) (he : onConn A e = true) (hq : quietEv e = true) :
-    ∀ o ∈ (step b e).2, ownOut A o = true :=
-  step_quiet_own b A e he hq
+theorem C05_quiet_events_reach_nobody (b : B) (A : Nat) (e : Ev) (he : onConn A e = true) (hq : quietEv e = true)
+    (hto : noTakeOver b e) : ∀ o ∈ (step b e).2, ownOut A o = true :=
+  step_quiet_own b A e he hq hto
 
 /-- **…and the messages are exactly the prescribed fan-out.**  On a live connection a QoS 0
 PUBLISH emits exactly the fan-out `onPublish` computes, a QoS 1 PUBLISH the PUBACK to `A`
@@ -217,11 +227,11 @@ example :
 in any number and order — leaves every other connection's table entry and liveness as they
 were, closes nobody else, and writes to others nothing but PUBLISH packets with RETAIN = 0. -/
 theorem C05_events_never_close_others (b : B) (A : Nat) (evs : List Ev) (h : ∀ e ∈ evs, onConn A e = true)
-    (B' : Nat) (hne : B' ≠ A) :
+    (hto : noTakeOverRun b evs) (B' : Nat) (hne : B' ≠ A) :
     (run b evs).1.getConn B' = b.getConn B' ∧ (run b evs).1.alive B' = b.alive B' ∧
     ∀ os ∈ (run b evs).2, Out.closed B' ∉ os ∧
       ∀ p, Out.send B' p ∈ os → ∃ w, p = .publish w ∧ w.retain = false := by
-  obtain ⟨h1, h2⟩ := run_iso A evs b h
+  obtain ⟨h1, h2⟩ := run_iso A evs b h hto
   refine ⟨h1 B' hne, by unfold B.alive; rw [h1 B' hne], fun os hos => ⟨fun hm => ?_, fun p hm => ?_⟩⟩
   · exact (isoOut_other hne (h2 os hos _ hm)).1 rfl
   · exact (isoOut_other hne (h2 os hos _ hm)).2 p rfl
@@ -257,10 +267,13 @@ theorem C05_forwarded_publish_has_id (sz A fuel : Nat) (avail : Bytes) (p : Pub)
 stream sent as the first thing on `A` and every byte stream sent afterwards, cut anywhere
 (`ends`: the peer closes or the connect deadline passes), followed or not by the end of `A`:
 every other connection `B'` keeps its table entry and its liveness, is never closed, and is
-written nothing but PUBLISH packets with RETAIN = 0 (which §3 identifies as the fan-out of
+written nothing but PUBLISH packets with RETAIN = 0 — unless the first packet is an acceptable
+CONNECT carrying the client identifier of a live connection, which MQTT-3.1.4-2 requires to
+disconnect that connection (`hto`; `C05_take_over_ends_only_same_client` says whom) — (which §3 identifies as the fan-out of
 `A`'s accepted publishes and of its will). -/
 theorem C05_bytes_hurt_nobody_else (b : B) (sz A fuel : Nat) (auth : Auth) (first later : Bytes) (ends closes : Bool)
-    (B' : Nat) (hne : B' ≠ A) :
+    (B' : Nat) (hne : B' ≠ A)
+    (hto : ∀ e rest, firstEvent A auth first ends = some (e, rest) → noTakeOver b e) :
     let evs : List Ev :=
       (match firstEvent A auth first ends with
         | some (e, rest) => e :: (postEvents sz A fuel (rest ++ later)).1
@@ -269,7 +282,33 @@ theorem C05_bytes_hurt_nobody_else (b : B) (sz A fuel : Nat) (auth : Auth) (firs
     ∀ os ∈ (run b evs).2, Out.closed B' ∉ os ∧
       ∀ p, Out.send B' p ∈ os → ∃ w, p = .publish w ∧ w.retain = false := by
   intro evs
-  apply C05_events_never_close_others b A evs _ B' hne
+  have hrun : noTakeOverRun b evs := by
+    simp only [evs]
+    cases hf : firstEvent A auth first ends with
+    | none =>
+      simp only [List.nil_append]
+      apply noTakeOverRun_of_notFirst
+      intro e he c f a h0
+      split at he
+      · simp only [List.mem_singleton] at he; rw [he] at h0; cases h0
+      · cases he
+    | some er =>
+      obtain ⟨e1, rest⟩ := er
+      simp only [List.cons_append]
+      refine ⟨hto e1 rest hf, ?_⟩
+      apply noTakeOverRun_of_notFirst
+      intro e he c f a h0
+      rcases List.mem_append.mp he with he | he
+      · obtain ⟨ps, hps | hps⟩ := (postEvents_shape sz A fuel (rest ++ later)).1
+        · rw [hps] at he; obtain ⟨p, _, rfl⟩ := List.mem_map.mp he; cases h0
+        · rw [hps] at he
+          rcases List.mem_append.mp he with he | he
+          · obtain ⟨p, _, rfl⟩ := List.mem_map.mp he; cases h0
+          · simp only [List.mem_singleton] at he; rw [he] at h0; cases h0
+      · split at he
+        · simp only [List.mem_singleton] at he; rw [he] at h0; cases h0
+        · cases he
+  apply C05_events_never_close_others b A evs _ hrun B' hne
   intro e he
   simp only [evs, List.mem_append] at he
   rcases he with he | he
